@@ -196,8 +196,9 @@ def param_vector(spec, mact):
     return v
 
 
-def plan_path_keys(ctx):
-    """state keys along the reference model's closure plan (every draw succeeding), by generative steps"""
+def plan_path_keys(ctx, cap=None):
+    """state keys along the reference model's closure plan (every draw succeeding), by generative steps;
+    with `cap`, only the first and last cap/2 states of the path are kept for expansion"""
     from .seams import draw_values as _dv
     ms, plan = ctx.model.closure_plan()
     idx = {}
@@ -207,14 +208,23 @@ def plan_path_keys(ctx):
     ctx.env.reset()
     s = ctx.env.current_state
     keys = [s.tensor.tobytes()]
+    path = [(keys[0], s, None, None)]
     for act in plan:
         i = idx.get((act["type"], act["name"], tuple(act["target"])))
         if i is None:
             break
         ctx.seam.arm(_dv(act["prob"])["below"])
         s, _, _, _, _ = ctx.env.generative_step(s, ctx.actions[i])
-        keys.append(s.tensor.tobytes())
-    return set(keys)
+        k = s.tensor.tobytes()
+        if k != keys[-1]:
+            path.append((k, s, keys[-1], i))
+            keys.append(k)
+    # full parent chain first (histories stay replayable), then the cap
+    ctx.path_parents = {k: (pk, i, "below") for k, _, pk, i in path if pk is not None}
+    if cap is not None and len(path) > cap:
+        path = path[: cap - cap // 2] + path[-(cap // 2):]
+    ctx.path_states = [(k, st) for k, st, _, _ in path]
+    return set(k for k, _, _, _ in path)
 
 
 def explore(ctx, oracles, max_states=None, record_graph=False, action_rep="object", root_state=None, expand_only=None):
@@ -262,6 +272,15 @@ def _explore(ctx, oracles, max_states, record_graph, reps, root_state=None, expa
     n_trans = 0
     capped = False
     graph = {} if record_graph else None
+    if expand_only is not None:
+        # path-bounded mode: every kept state of the reference path is a seed of the exploration
+        for k, pv in getattr(ctx, "path_parents", {}).items():
+            ctx.parent.setdefault(k, pv)
+        for k, st in getattr(ctx, "path_states", []):
+            if k not in seen:
+                seen[k] = len(seen)
+                order.append(st)
+                frontier.append((st, k))
     for o in oracles:
         o.on_scenario(ctx)
     sides = ("below", "above")
